@@ -21,7 +21,7 @@ PID = "C12"
 LEVEL = "exploration"
 TECHNIQUE = "bounded exhaustive enumeration (E1): full product of inputs x metric x axis x output type x -f/-leg/-acc through the real driver; the printed table is parsed back and compared with reference scores rounded to the documented precision"
 ASSUMPTIONS = ["formatted dates are compared by their integer groups (year, month, day, ...), not by separator characters",
-               "for a data dimension on the x-axis, threshold metrics are given a single threshold (averaging over several is not documented)"]
+               "several thresholds with a data dimension on the x-axis: the reported score is the arithmetic mean of the per-threshold scores and is undefined (nan) where one of them is undefined (output.py: 'Average all thresholds'; not in the help text)"]
 
 DAY = 86400
 TIMES = [cal.days_from_civil(2012, 2, 28) * DAY, cal.days_from_civil(2012, 2, 29) * DAY + 6 * 3600,
@@ -121,7 +121,12 @@ def harness(ctx):
             argv += ["-r", ",".join(gen.fmt_num(t) for t in thresholds)]
     elif metric in NEEDS_THR:
         thresholds = [float(NEEDS_THR[metric])]
-        argv += ["-r", NEEDS_THR[metric]]
+        if ctx.choose("thresholds-on-data-axis", ("one", "two"), free=True) == "two":
+            # several thresholds on a data axis: the score is the average over the thresholds ("Average all thresholds" in
+            # output.py), undefined where it is undefined for one of them.  8 is above every observation.
+            thresholds = [float(NEEDS_THR[metric]), 8.0]
+            ctx.flag("two-thresholds")
+        argv += ["-r", ",".join(gen.fmt_num(t) for t in thresholds)]
     elif metric == "quantilescore":
         thresholds = [0.5]
         argv += ["-q", "0.5"]
@@ -211,8 +216,15 @@ def harness(ctx):
             elif axis in ("obs", "fcst"):
                 e = RS.score(ref, metric, i, "no", 0, iv=None, axis_filter=(axis, ivs[k]))
             else:
-                iv1 = RS.intervals(bin_type, thresholds)[0] if thresholds else None
-                e = RS.score(ref, metric, i, axis, k, iv=iv1)
+                ivl = RS.intervals(bin_type, thresholds) if thresholds else [None]
+                parts = [RS.score(ref, metric, i, axis, k, iv=iv1) for iv1 in ivl]
+                if len(parts) == 1:
+                    e = parts[0]
+                elif any(x is None or math.isnan(x) for x in parts):
+                    e = None
+                    ctx.flag("undefined-for-one-threshold")
+                else:
+                    e = math.fsum(parts) / len(parts)
             if use_acc:
                 acc[i] += 0.0 if (e is None or math.isnan(e) or math.isinf(e)) else e
                 e = acc[i]
@@ -373,9 +385,9 @@ def run(tier, only=None):
             continue
         t0 = time.time()
         st = explore.explore(h, mode="full", params=params, repo_root=core.REPO, time_cap=(400 if tier == "quick" else 3000))
-        subs.append(core.Sub.from_e1(name, st, bound={"tables": "full product inputs x metrics x axes x {csv,text} x -f x -leg x -acc", "refuse": "26 diagrams x {csv,text}", "obsfcst": "full product inputs x 6 axes x {csv,text} x 4 quantile lists x 2 aggregators", "names": "{csv,text} x 3 ways of giving two inputs the same / a confusing name x 3 axes"}[name],
+        subs.append(core.Sub.from_e1(name, st, bound={"tables": "full product inputs x metrics x axes x {csv,text} x -f x -leg x -acc (x {one, two} thresholds for threshold metrics on data axes)", "refuse": "26 diagrams x {csv,text}", "obsfcst": "full product inputs x 6 axes x {csv,text} x 4 quantile lists x 2 aggregators", "names": "{csv,text} x 3 ways of giving two inputs the same / a confusing name x 3 axes"}[name],
                                      rule="one execution = one command line; header, row labels and every number compared with the reference; non-trivial = more than one row or column",
-                                     wall=time.time() - t0))
+                                     required_flags=("two-thresholds", "undefined-for-one-threshold") if name == "tables" else (), wall=time.time() - t0))
     return subs
 
 
